@@ -1,0 +1,23 @@
+//go:build verif
+// +build verif
+
+package erpc
+
+// VerifSentinels returns the package-level predefined statuses by name, so
+// that a verification harness can compare their fields before and after a
+// history of operations. Verif build only.
+func VerifSentinels() map[string]*Status {
+	return map[string]*Status{
+		"statInvalidOpError":      statInvalidOpError,
+		"statUnknownError":        statUnknownError,
+		"statDialFailed":          statDialFailed,
+		"statConnClosed":          statConnClosed,
+		"statWriteFailed":         statWriteFailed,
+		"statBadMessage":          statBadMessage,
+		"statNotFound":            statNotFound,
+		"statCodeMtypeNotAllowed": statCodeMtypeNotAllowed,
+		"statHandleTimeout":       statHandleTimeout,
+		"statInternalServerError": statInternalServerError,
+		"statUnpreparedError":     statUnpreparedError,
+	}
+}
